@@ -432,3 +432,329 @@ def clipped(rng, **opt):
     g = Gen(rng, clips=True, **opt)
     root = g.document()
     return to_xml(root), g.f, root
+
+
+# ---------------------------------------------------------------- cascade helpers on Node trees
+
+_INH = ("fill", "fill-rule", "fill-opacity", "stroke", "stroke-width", "stroke-linecap", "stroke-linejoin", "stroke-miterlimit",
+        "stroke-dasharray", "stroke-dashoffset", "stroke-opacity", "clip-rule")
+_INIT = {"fill": "black", "fill-rule": "nonzero", "fill-opacity": "1", "stroke": "none", "stroke-width": "1", "stroke-linecap": "butt",
+         "stroke-linejoin": "miter", "stroke-miterlimit": "4", "stroke-dasharray": "none", "stroke-dashoffset": "0", "stroke-opacity": "1",
+         "clip-rule": "nonzero"}
+
+
+def _style_items(n):
+    st = n.attrs.get("style")
+    out = []
+    if st:
+        for d in st.split(";"):
+            if ":" in d:
+                k, v = d.split(":", 1)
+                out.append((k.strip(), v.strip()))
+    return out
+
+
+def own_props(n):
+    p = {k: v for k, v in n.attrs.items() if k in _INH or k in ("display", "opacity")}
+    for k, v in _style_items(n):
+        if k in _INH or k in ("display", "opacity"):
+            p[k] = v
+    return p
+
+
+def _del_prop(n, k):
+    n.attrs.pop(k, None)
+    items = [(a, b) for a, b in _style_items(n) if a != k]
+    if "style" in n.attrs:
+        if items:
+            n.attrs["style"] = ";".join(f"{a}:{b}" for a, b in items)
+        else:
+            del n.attrs["style"]
+
+
+def _num_eq(a, b):
+    try:
+        return float(a) == float(b)
+    except Exception:
+        return a == b
+
+
+def redundant_explicit(root):
+    """[(node, prop)] for every element inside a <use> target subtree that explicitly
+    specifies an inherited property (or display:none) with the very value its original
+    ancestors already provide (known-finding class 'explicit-equal-inherited-dropped-on-use')."""
+    ids = {n.attrs["id"]: n for n in root.iter() if n.kind == "el" and "id" in n.attrs}
+    targets = set()
+    for n in root.iter():
+        if n.kind == "el" and n.tag == "use":
+            t = ids.get(n.attrs.get("xlink:href", "#")[1:])
+            if t is not None:
+                for x in t.iter():
+                    targets.add(id(x))
+    out = []
+
+    def walk(n, inh, dn):
+        if n.kind != "el":
+            return
+        own = own_props(n)
+        if id(n) in targets:
+            for k, v in own.items():
+                if k in _INH and _num_eq(v, inh.get(k, _INIT[k])):
+                    out.append((n, k))
+                if k == "display" and v == "none" and dn:
+                    out.append((n, k))
+        inh2 = dict(inh)
+        for k in _INH:
+            if k in own:
+                inh2[k] = own[k]
+        dn2 = dn or own.get("display") == "none"
+        for c in n.children:
+            walk(c, inh2, dn2)
+
+    walk(root, {}, False)
+    return out
+
+
+def sanitize_redundant_explicit(root):
+    """Remove the redundant declarations (rendering of the original context is unchanged)."""
+    n = 0
+    for node, k in redundant_explicit(root):
+        _del_prop(node, k)
+        n += 1
+    return n
+
+
+def paint_doc(rng, allow_redundant=False, root_opacity=False, **opt):
+    """C05 profile: cascade of fill/opacity/display via attributes and styles, overlapping geometry."""
+    g = Gen(rng, paint=True, nested_svg=False, unique_fills=False, **opt)
+    r = rng
+    body = []
+    # overlapping translucent group patterns on top of the random structure
+    for _ in range(r.randint(1, 3)):
+        body.append(g.node(0))
+    for _ in range(r.randint(1, 2)):
+        grp = Node("g")
+        g.cascade_attrs(grp, leaf=False)
+        if "opacity" not in own_props(grp) and r.random() < 0.7:
+            grp.attrs["opacity"] = r.choice(("0.5", "0.4", "0.7"))
+        x, y = g.num(5, 50), g.num(5, 50)
+        for i in range(r.randint(1, 3)):
+            s = Node("rect", {"x": fnum(x + 12 * i), "y": fnum(y + 9 * i), "width": fnum(g.num(20, 40)), "height": fnum(g.num(20, 40))})
+            g.cascade_attrs(s, leaf=True)
+            grp.children.append(s)
+        g.f["translucent_group_overlap" if len(grp.children) > 1 else "translucent_group_single"] += 1
+        if r.random() < 0.3:
+            inner = Node("g", {"opacity": r.choice(("0.5", "0.8"))}, [grp])
+            g.f["nested_translucent"] += 1
+            grp = inner
+        g.maybe_id(grp, "g", p=0.3)
+        body.append(grp)
+    if g.idpool and r.random() < 0.7:
+        body.append(g.use_node())
+    root_attrs = {}
+    rr = Node("svg")
+    if r.random() < 0.4:
+        g.cascade_attrs(rr, leaf=False)
+        for k in ("opacity", "display"):
+            _del_prop(rr, k)
+        root_attrs = rr.attrs
+        g.f["root_paint"] += 1
+    if root_opacity:
+        root_attrs["opacity"] = r.choice(("0.5", "0.25"))
+        g.f["root_opacity"] += 1
+    root = g.document(body_nodes=body, root_attrs=root_attrs)
+    if not allow_redundant:
+        g.f["sanitized_redundant"] += sanitize_redundant_explicit(root)
+    else:
+        g.f["redundant_explicit"] += len(redundant_explicit(root))
+    return to_xml(root), g.f, root
+
+
+def redundant_doc(rng):
+    """Dedicated sub-workload for the known-finding class: a use target that explicitly repeats
+    the value its original ancestors provide, instanced under a use that provides another value."""
+    g = Gen(rng, paint=True, nested_svg=False, unique_fills=False)
+    r = rng
+    prop, v, v2 = r.choice((("fill", "green", "navy"), ("fill", "black", "red"), ("fill-opacity", "0.5", "1"), ("fill-rule", "evenodd", "nonzero"),
+                            ("fill", "orange", "teal")))
+    grp = Node("g", {} if (prop, v) == ("fill", "black") else {prop: v})
+    if prop == "fill-rule":
+        shape = Node("path", {"d": gp.render(gs.nested(30, 30, 20, 10, same_direction=True))})
+    else:
+        shape = Node("rect", {"x": fnum(g.num(5, 30)), "y": fnum(g.num(5, 30)), "width": fnum(g.num(20, 40)), "height": fnum(g.num(20, 40))})
+    shape.attrs["id"] = "t"
+    if r.random() < 0.5:
+        shape.attrs[prop] = v
+    else:
+        shape.attrs["style"] = f"{prop}:{v}"
+    grp.children.append(shape)
+    if r.random() < 0.5:
+        grp.children.append(g.painted_shape())
+    use = Node("use", {"xlink:href": "#t", "x": fnum(g.num(30, 50)), "y": fnum(g.num(30, 50)), prop: v2})
+    body = [grp, use]
+    if r.random() < 0.5:
+        body.insert(0, g.painted_shape())
+    root = g.document(body_nodes=body)
+    g.f["redundant_explicit_planted"] += 1
+    return to_xml(root), g.f, root
+
+
+STROKE_COLORS = ["navy", "maroon", "teal", "purple", "olive", "#333", "#905", "#069"]
+
+
+def stroke_props(g, r):
+    p = {"stroke": r.choice(STROKE_COLORS), "stroke-width": fnum(g.num(2, 12, 1))}
+    if r.random() < 0.7:
+        p["stroke-linecap"] = r.choice(("butt", "round", "square"))
+    if r.random() < 0.7:
+        p["stroke-linejoin"] = r.choice(("miter", "round", "bevel"))
+    if r.random() < 0.5:
+        p["stroke-miterlimit"] = fnum(r.choice((1, 1.5, 2, 4, 10)))
+    if r.random() < 0.45:
+        n = r.choice((1, 2, 2, 3, 4))
+        p["stroke-dasharray"] = r.choice((",", " ", ", ")).join(fnum(g.num(2, 14, 1) + 1) for _ in range(n))
+        g.f["dash_odd" if n % 2 else "dash_even"] += 1
+        if r.random() < 0.6:
+            p["stroke-dashoffset"] = fnum(r.choice((g.num(0, 10, 1), -g.num(0, 10, 1), g.num(20, 60, 1), -g.num(20, 60, 1))))
+            g.f["dash_offset"] += 1
+    return p
+
+
+def stroke_doc(rng, hairpins=False):
+    """C04 profile.  Curved segments keep their radius of curvature above the largest stroke
+    width unless `hairpins` (known-finding class: Skia's stroker at tight curvature)."""
+    g = Gen(rng, strokes=True, nested_svg=False, unique_fills=True, use=True, display_none=False)
+    r = rng
+    body = []
+
+    def geometry():
+        k = r.random()
+        if k < 0.3:
+            pts = [(g.num(10, 90, 0), g.num(10, 90, 0)) for _ in range(r.randint(2, 5))]
+            n = Node("polyline" if r.random() < 0.6 else "polygon", {"points": " ".join(f"{fnum(x)},{fnum(y)}" for x, y in pts)})
+        elif k < 0.5:
+            n = g.shape(kinds=("rect", "rrect", "circle", "ellipse", "line"))
+            if not hairpins:
+                # keep every radius of curvature above the largest stroke width (12)
+                if n.tag == "circle":
+                    n.attrs["r"] = fnum(g.num(14, 22))
+                elif n.tag == "ellipse":
+                    n.attrs["rx"] = fnum(g.num(18, 24))
+                    n.attrs["ry"] = fnum(g.num(18, 24))
+                elif "rx" in n.attrs:
+                    n.attrs["width"] = fnum(g.num(40, 50))
+                    n.attrs["height"] = fnum(g.num(40, 50))
+                    n.attrs["rx"] = fnum(g.num(15, 19))
+                    n.attrs.pop("ry", None)
+        elif k < 0.7:
+            # curved open / closed path
+            p0 = (g.num(10, 40, 0), g.num(10, 90, 0))
+            d = f"M{fnum(p0[0])},{fnum(p0[1])}"
+            for _ in range(r.randint(1, 3)):
+                c = r.choice("CQL")
+                n_ = lambda: fnum(g.num(5, 95, 0))
+                if c == "C":
+                    d += f" C{n_()},{n_()} {n_()},{n_()} {n_()},{n_()}"
+                elif c == "Q":
+                    d += f" Q{n_()},{n_()} {n_()},{n_()}"
+                else:
+                    d += f" L{n_()},{n_()}"
+            if r.random() < 0.3:
+                d += " Z"
+            from picomon.ref import pathgrammar as _G, stroke as _RSK
+
+            if not hairpins:
+                for _ in range(12):
+                    if _RSK.min_curvature_radius(_G.parse(d)) >= 14:
+                        break
+                    # gentler curve: control points close to the chord
+                    x0, y0 = g.num(10, 30, 0), g.num(20, 80, 0)
+                    x1, y1 = x0 + g.num(40, 60, 0), y0 + g.num(-15, 15, 0)
+                    if r.random() < 0.5:
+                        d = f"M{fnum(x0)},{fnum(y0)} Q{fnum((x0 + x1) / 2)},{fnum(y0 + g.num(-25, 25, 0))} {fnum(x1)},{fnum(y1)}"
+                    else:
+                        d = (f"M{fnum(x0)},{fnum(y0)} C{fnum(x0 + 15)},{fnum(y0 + g.num(-20, 20, 0))} "
+                             f"{fnum(x1 - 15)},{fnum(y1 + g.num(-20, 20, 0))} {fnum(x1)},{fnum(y1)}")
+                else:
+                    d = f"M{fnum(g.num(10, 40, 0))},{fnum(g.num(10, 90, 0))} L{fnum(g.num(50, 90, 0))},{fnum(g.num(10, 90, 0))}"
+            else:
+                g.f["hairpin_allowed"] += 1
+            n = Node("path", {"d": d})
+        else:
+            # multi-subpath
+            d = ""
+            for _ in range(2):
+                pts = [(g.num(10, 90, 0), g.num(10, 90, 0)) for _ in range(r.randint(2, 4))]
+                d += "M" + " L".join(f"{fnum(x)},{fnum(y)}" for x, y in pts) + (" Z " if r.random() < 0.4 else " ")
+            n = Node("path", {"d": d.strip()})
+            g.f["multi_subpath"] += 1
+        return n
+
+    def stroked(inherited=False):
+        n = geometry()
+        props = {} if inherited else stroke_props(g, r)
+        mode = r.random()
+        if mode < 0.45:
+            props["fill"] = "none"
+            g.f["stroke_only"] += 1
+        elif mode < 0.8:
+            props["fill"] = g.color()
+            g.f["fill_and_stroke"] += 1
+        else:
+            # translucent: only one piece visible
+            if r.random() < 0.5:
+                props["fill"] = "none"
+                props[r.choice(("stroke-opacity", "opacity"))] = r.choice(("0.5", "0.25"))
+            else:
+                props["fill"] = g.color()
+                props["stroke"] = "none"
+                props[r.choice(("fill-opacity", "opacity"))] = "0.5"
+            g.f["translucent_single_piece"] += 1
+        style = []
+        for k, v in props.items():
+            if r.random() < 0.3:
+                style.append(f"{k}:{v}")
+                g.f["stroke_prop_style"] += 1
+            else:
+                n.attrs[k] = v
+        if style:
+            n.attrs["style"] = ";".join(style)
+        if r.random() < 0.35:
+            n.attrs["transform"] = g.transform()
+            g.f["stroked_shape_transform"] += 1
+        return n
+
+    for _ in range(r.randint(1, 3)):
+        body.append(stroked())
+    if r.random() < 0.6:
+        grp = Node("g", stroke_props(g, r))
+        g.f["stroke_inherited_from_group"] += 1
+        if r.random() < 0.7:
+            k = r.random()
+            if k < 0.4:
+                grp.attrs["transform"] = f"scale({fnum(g.num(0.5, 1.6, 2))} {fnum(g.num(0.5, 1.6, 2))})"
+                g.f["nonuniform_scale"] += 1
+            elif k < 0.6:
+                grp.attrs["transform"] = f"skewX({fnum(g.num(-30, 30, 0))})"
+                g.f["skew"] += 1
+            else:
+                grp.attrs["transform"] = g.transform()
+        for _ in range(r.randint(1, 2)):
+            grp.children.append(stroked(inherited=r.random() < 0.7))
+        if r.random() < 0.4:
+            grp.children[0].attrs = {"id": "st1", **grp.children[0].attrs}
+            body.append(grp)
+            u = Node("use", {"xlink:href": "#st1", "x": fnum(g.num(-20, 20)), "y": fnum(g.num(-20, 20))})
+            if r.random() < 0.5:
+                u.attrs.update(stroke_props(g, r))
+            g.f["use_of_stroked"] += 1
+            body.append(u)
+        else:
+            body.append(grp)
+    root_attrs = {}
+    if r.random() < 0.2:
+        root_attrs = {"stroke-linecap": r.choice(("round", "square")), "stroke-linejoin": r.choice(("round", "bevel"))}
+        g.f["stroke_inherited_from_root"] += 1
+    root = g.document(body_nodes=body, root_attrs=root_attrs)
+    sanitize_redundant_explicit(root)
+    return to_xml(root), g.f, root
